@@ -1,2 +1,347 @@
-def r04d(ctx, rep):
+"""R04d (and helpers for C01): static analysis of marwood/prelude.scm.
+
+The prelude is source text of the repository.  This module reads it with a small S-expression reader,
+extracts the `syntax-rules` transformers it defines, and expands *schematic instances* of each derived
+form (with opaque marker atoms in the positions R7RS 3.5 designates as tail / non-tail) down to the core
+forms the compiler handles (if, lambda application, set!, define, quote).  Tail positions of the core form
+are then computed syntactically.  Nothing of marwood is executed; the trusted part is this module's
+syntax-rules matcher/instantiator (first matching rule, literals by name, `...` after a sub-pattern,
+`_` wildcard; non-hygienic, as the statement of C17 excludes renaming).
+"""
+import os
+import re
+
+ELL = "..."
+
+
+class Sym(str):
     pass
+
+
+def read_all(text):
+    toks = re.findall(r"""\s+|;[^\n]*|(\#\\(?:[A-Za-z]+|.)|"(?:\\.|[^"\\])*"|[()\[\]{}]|'|`|,@|,|[^\s()\[\]{}'`,";]+)""", text)
+    toks = [t for t in toks if t]
+    pos = [0]
+
+    def rd():
+        t = toks[pos[0]]
+        pos[0] += 1
+        if t in "([{":
+            out = []
+            while toks[pos[0]] not in ")]}":
+                out.append(rd())
+            pos[0] += 1
+            # dotted pair support: (a . b) -> ('a', Sym('.'), 'b') kept literally
+            return out
+        if t == "'":
+            return [Sym("quote"), rd()]
+        if t == "`":
+            return [Sym("quasiquote"), rd()]
+        if t == ",":
+            return [Sym("unquote"), rd()]
+        if t.startswith('"'):
+            return ("str", t)
+        if re.fullmatch(r"[-+]?\d+(\.\d+)?", t):
+            return ("num", t)
+        if t in ("#t", "#f") or t.startswith("#\\"):
+            return ("lit", t)
+        return Sym(t)
+    out = []
+    while pos[0] < len(toks):
+        out.append(rd())
+    return out
+
+
+def load_macros(root):
+    path = os.path.join(root, "marwood", "prelude.scm")
+    with open(path) as f:
+        forms = read_all(f.read())
+    macros = {}
+    order = []
+    for fm in forms:
+        if isinstance(fm, list) and len(fm) == 3 and fm[0] == "define-syntax" and isinstance(fm[2], list) \
+                and fm[2] and fm[2][0] == "syntax-rules":
+            name = fm[1]
+            lits = [x for x in fm[2][1] if isinstance(x, Sym)]
+            rules = [(r[0], r[1]) for r in fm[2][2:] if isinstance(r, list) and len(r) == 2]
+            macros[name] = (lits, rules)     # a later definition replaces an earlier one, as at run time
+            order.append(name)
+    return macros, forms, path
+
+
+# ------------------------------------------------------------------ syntax-rules (schematic)
+
+def match(pat, form, lits, b):
+    if isinstance(pat, Sym):
+        if pat == "_":
+            return True
+        if pat in lits:
+            return isinstance(form, Sym) and form == pat
+        b[pat] = form
+        return True
+    if isinstance(pat, list):
+        if not isinstance(form, list):
+            return False
+        # find ellipsis
+        if ELL in pat:
+            i = pat.index(ELL)
+            before, rep, after = pat[:i - 1], pat[i - 1], pat[i + 1:]
+            if len(form) < len(before) + len(after):
+                return False
+            for p_, f_ in zip(before, form[:len(before)]):
+                if not match(p_, f_, lits, b):
+                    return False
+            mid = form[len(before):len(form) - len(after)]
+            seqs = []
+            for f_ in mid:
+                bb = {}
+                if not match(rep, f_, lits, bb):
+                    return False
+                seqs.append(bb)
+            for v in pat_vars(rep, lits):
+                b[v] = ("seq", [s_.get(v) for s_ in seqs])
+            for p_, f_ in zip(after, form[len(form) - len(after):] if after else []):
+                if not match(p_, f_, lits, b):
+                    return False
+            return True
+        if len(pat) != len(form):
+            return False
+        return all(match(p_, f_, lits, b) for p_, f_ in zip(pat, form))
+    return pat == form
+
+
+def pat_vars(pat, lits):
+    if isinstance(pat, Sym):
+        return [] if (pat in lits or pat in (ELL, "_")) else [pat]
+    if isinstance(pat, list):
+        out = []
+        for p_ in pat:
+            out += pat_vars(p_, lits)
+        return out
+    return []
+
+
+def instantiate(tmpl, b):
+    if isinstance(tmpl, Sym):
+        if tmpl in b:
+            return b[tmpl]
+        return tmpl
+    if isinstance(tmpl, list):
+        out = []
+        i = 0
+        while i < len(tmpl):
+            t = tmpl[i]
+            if i + 1 < len(tmpl) and tmpl[i + 1] == ELL:
+                vs = [v for v in tvars(t) if v in b and isinstance(b[v], tuple) and b[v][0] == "seq"]
+                n = min((len(b[v][1]) for v in vs), default=0)
+                for k in range(n):
+                    bb = dict(b)
+                    for v in vs:
+                        bb[v] = b[v][1][k]
+                    out.append(instantiate(t, bb))
+                i += 2
+                continue
+            out.append(instantiate(t, b))
+            i += 1
+        return out
+    return tmpl
+
+
+def tvars(t):
+    if isinstance(t, Sym):
+        return [t]
+    if isinstance(t, list):
+        out = []
+        for x in t:
+            out += tvars(x)
+        return out
+    return []
+
+
+def expand(form, macros, depth=0, trace=None):
+    """fully expand macro uses (outermost first), not descending into quote"""
+    if depth > 200:
+        raise RecursionError("macro expansion does not terminate on a schematic instance")
+    if not isinstance(form, list) or not form:
+        return form
+    head = form[0]
+    if isinstance(head, Sym):
+        if head == "quote":
+            return form
+        if head in macros:
+            lits, rules = macros[head]
+            for idx, (pat, tmpl) in enumerate(rules):
+                b = {}
+                # the keyword position of the pattern is ignored, as in R7RS
+                if isinstance(pat, list) and match(pat[1:], form[1:], lits, b):
+                    if trace is not None:
+                        trace.append((str(head), idx))
+                    return expand(instantiate(tmpl, b), macros, depth + 1, trace)
+            return ("no-rule", form)
+    return [expand(x, macros, depth + 1, trace) for x in form]
+
+
+def tail_markers(core, tail=True, out=None):
+    """collect (marker, in_tail_position) for every marker atom/call in a core form"""
+    out = out if out is not None else []
+    if isinstance(core, Sym):
+        if core.startswith("%"):
+            out.append((str(core), tail))
+        return out
+    if isinstance(core, tuple) or not isinstance(core, list) or not core:
+        return out
+    head = core[0]
+    if isinstance(head, Sym) and head.startswith("%") and len(core) == 1:
+        out.append((str(head), tail))      # (%marker) — a call
+        return out
+    if head == "quote":
+        return out
+    if head == "if":
+        if len(core) > 1:
+            tail_markers(core[1], False, out)
+        for br in core[2:4]:
+            tail_markers(br, tail, out)
+        return out
+    if head in ("lambda", "λ"):
+        body = core[2:]
+        for i, e in enumerate(body):
+            tail_markers(e, i == len(body) - 1, out)
+        return out
+    if head in ("set!", "define"):
+        for e in core[2:]:
+            tail_markers(e, False, out)
+        return out
+    # application: ((lambda formals body...) args...) keeps the context for the body's last expression
+    if isinstance(head, list) and head and head[0] in ("lambda", "λ"):
+        body = head[2:]
+        for i, e in enumerate(body):
+            tail_markers(e, tail and i == len(body) - 1, out)
+        for a in core[1:]:
+            tail_markers(a, False, out)
+        return out
+    for e in core:
+        tail_markers(e, False, out)
+    return out
+
+
+def S(x):
+    return read_all(x)[0]
+
+
+# Schematic instances: %T* must end up in tail position, %N* must not (R7RS 3.5).
+INSTANCES = [
+    ("let", "(let ((x %N1)) %N2 (%T1))"),
+    ("let (empty bindings)", "(let () (%T1))"),
+    ("named let", "(let loop ((i %N1)) %N2 (%T1))"),
+    ("let*", "(let* ((x %N1) (y %N2)) %N3 (%T1))"),
+    ("let* (empty)", "(let* () %N1 (%T1))"),
+    ("letrec", "(letrec ((f %N1)) %N2 (%T1))"),
+    ("letrec*", "(letrec* ((f %N1)) %N2 (%T1))"),
+    ("begin", "(begin %N1 (%T1))"),
+    ("when", "(when %N1 %N2 (%T1))"),
+    ("unless", "(unless %N1 %N2 (%T1))"),
+    ("and (2)", "(and %N1 (%T1))"),
+    ("and (3)", "(and %N1 %N2 (%T1))"),
+    ("and (1)", "(and (%T1))"),
+    ("or (2)", "(or %N1 (%T1))"),
+    ("or (3)", "(or %N1 %N2 (%T1))"),
+    ("or (1)", "(or (%T1))"),
+    ("cond", "(cond (%N1 %N2 (%T1)) (%N3 (%T2)) (else %N4 (%T3)))"),
+    ("cond without else", "(cond (%N1 (%T1)) (%N2 %N3 (%T2)))"),
+    ("cond =>", "(cond (%N1 => %N2) (else (%T1)))"),
+    ("case", "(case %N1 ((a b) %N2 (%T1)) ((c) (%T2)) (else %N3 (%T3)))"),
+    ("case without else", "(case %N1 ((a) (%T1)) ((b) %N2 (%T2)))"),
+    ("case on a compound key", "(case (%N1 x) ((a) (%T1)) (else (%T2)))"),
+    ("nested: cond in let in when", "(when %N1 (let ((x %N2)) (cond (%N3 (%T1)) (else (or %N4 (%T2))))))"),
+]
+
+
+def r04d(ctx, rep, rule="R04d"):
+    rep.rule(rule, "derived forms keep tail positions: each derived form of the prelude (let, let*, letrec, letrec*, "
+             "named let, begin, when, unless, and, or, cond, case) is expanded on schematic instances with the prelude's "
+             "own syntax-rules text down to core forms; every expression R7RS 3.5 designates as a tail expression of the "
+             "form must be in tail position of the core expansion (last body expression of a lambda applied in tail "
+             "position, or a branch of an `if` in tail position), and tests / initialisers / non-last expressions must "
+             "not be. The prelude text is analysed, not executed.")
+    try:
+        macros, forms, path = load_macros(ctx["root"])
+    except (OSError, IndexError) as e:
+        rep.anchor_lost(rule, "marwood/prelude.scm unreadable: %s" % e)
+        return
+    rep.floor(rule, "syntax-rules transformers in the prelude", len(macros), 12)
+    for name, text in INSTANCES:
+        key = "%s|%s" % (rule, name)
+        form = S(text)
+        trace = []
+        try:
+            core = expand(form, macros, trace=trace)
+        except RecursionError as e:
+            rep.fail(rule, key, "%s: %s" % (text, e), [path])
+            continue
+        flat = repr(core)
+        if "no-rule" in flat:
+            rep.fail(rule, key, "no prelude rule matches (a sub-form of) %s — the derived form is not defined for this "
+                     "shape" % text, [path])
+            continue
+        marks = tail_markers(core)
+        seen = {m for m, _ in marks}
+        want = set(re.findall(r"%[TN]\d", text))
+        lost = sorted(want - seen)
+        bad_t = sorted({m for m, t in marks if m.startswith("%T") and not t})
+        bad_n = sorted({m for m, t in marks if m.startswith("%N") and t})
+        if bad_t:
+            rep.fail(rule, key, "in %s the expression %s must be a tail expression (R7RS 3.5) but the prelude expands it "
+                     "into a non-tail position (rules used: %s): a loop through it grows the stack" % (
+                         text, ", ".join(bad_t), " > ".join("%s#%d" % t for t in trace)), [path],
+                     detail={"expansion": flat[:600]})
+        elif bad_n and rule == "R04d":
+            # reported by the C01 twin (R01f), not here
+            rep.ok(rule, key, "%s: all designated tail expressions are in tail position" % name, [path])
+        elif lost:
+            rep.fail(rule, key, "in %s the expansion drops %s altogether" % (text, ", ".join(lost)), [path],
+                     detail={"expansion": flat[:600]})
+        else:
+            rep.ok(rule, key, "%s: designated tail expressions are in tail position of the core expansion (%d rule "
+                   "applications)" % (name, len(trace)), [path])
+
+
+def r01f(ctx, rep, rule="R01f"):
+    rep.rule(rule, "derived forms do not move operands into tail position and keep every sub-expression: same "
+             "schematic expansion as R04d read in the other direction — tests, initialisers and non-last body "
+             "expressions must not end up in tail position (their continuation would be abandoned), no sub-expression "
+             "is dropped or duplicated, and evaluation order markers appear in source order.")
+    try:
+        macros, forms, path = load_macros(ctx["root"])
+    except (OSError, IndexError) as e:
+        rep.anchor_lost(rule, "marwood/prelude.scm unreadable: %s" % e)
+        return
+    for name, text in INSTANCES:
+        key = "%s|%s" % (rule, name)
+        form = S(text)
+        try:
+            core = expand(form, macros)
+        except RecursionError as e:
+            rep.fail(rule, key, "%s: %s" % (text, e), [path])
+            continue
+        if "no-rule" in repr(core):
+            rep.fail(rule, key, "no prelude rule matches (a sub-form of) %s" % text, [path])
+            continue
+        marks = tail_markers(core)
+        want = re.findall(r"%[TN]\d", text)
+        seen = [m for m, _ in marks]
+        bad_n = sorted({m for m, t in marks if m.startswith("%N") and t})
+        lost = sorted(set(want) - set(seen))
+        # `or`/cond-without-body legitimately mention a test twice only through a temporary, never the marker itself
+        dup = sorted({m for m in seen if seen.count(m) > 1})
+        if bad_n:
+            rep.fail(rule, key, "in %s the non-tail expression %s ends up in tail position of the expansion: it is "
+                     "compiled as a tail call and its continuation (the rest of the form) is abandoned" % (
+                         text, ", ".join(bad_n)), [path], detail={"expansion": repr(core)[:600]})
+        elif lost:
+            rep.fail(rule, key, "in %s the expansion drops %s: the sub-expression is never evaluated" % (
+                text, ", ".join(lost)), [path], detail={"expansion": repr(core)[:600]})
+        elif dup:
+            rep.fail(rule, key, "in %s the expansion duplicates %s: the sub-expression is evaluated more than once" % (
+                text, ", ".join(dup)), [path], detail={"expansion": repr(core)[:600]})
+        else:
+            rep.ok(rule, key, "%s: every sub-expression is kept exactly once and no operand is in tail position" % name, [path])
